@@ -77,6 +77,14 @@ impl<'de> URLEncodedDeserializer<'de> {
             }
         }
     }
+    /// next section, percent-decoded (any part of `key=value&...` may be percent-encoded, numbers included)
+    #[inline]
+    fn next_decoded_section(&mut self) -> Result<Cow<'de, str>, super::Error> {
+        let section = self.next_section()?;
+        percent_decode_utf8(section).map_err(|e|
+            serde::de::Error::custom(format!("Expected to be decoded to an UTF-8, but got `{}`: {e}", section.escape_ascii()))
+        )
+    }
 }
 
 impl<'u, 'de> serde::Deserializer<'de> for &'u mut URLEncodedDeserializer<'de> {
@@ -234,7 +242,7 @@ impl<'u, 'de> serde::Deserializer<'de> for &'u mut URLEncodedDeserializer<'de> {
 
     fn deserialize_seq<V>(self, visitor: V) -> Result<V::Value, Self::Error>
     where V: serde::de::Visitor<'de> {
-        visitor.visit_seq(CommaSeparated::new(self))
+        visitor.visit_seq(CommaSeparated::new(self)?)
     }
     fn deserialize_tuple<V>(self, _len: usize, visitor: V) -> Result<V::Value, Self::Error>
     where V: serde::de::Visitor<'de> {
@@ -256,7 +264,7 @@ impl<'u, 'de> serde::Deserializer<'de> for &'u mut URLEncodedDeserializer<'de> {
             assert!(self.side == ParsingSide::Value);
         }
 
-        match percent_decode(self.next_section().unwrap()) {
+        match percent_decode(self.next_section()?) {
             Cow::Borrowed(slice) => visitor.visit_bytes(slice),
             Cow::Owned(byte_vec) => visitor.visit_byte_buf(byte_vec),
         }
@@ -276,12 +284,12 @@ impl<'u, 'de> serde::Deserializer<'de> for &'u mut URLEncodedDeserializer<'de> {
             assert!(self.side == ParsingSide::Value);
         }
 
-        match self.next_section().unwrap() {
-            b"true"  => visitor.visit_bool(true),
-            b"false" => visitor.visit_bool(false),
+        match &*self.next_decoded_section()? {
+            "true"  => visitor.visit_bool(true),
+            "false" => visitor.visit_bool(false),
             other   => Err(serde::de::Error::custom(format!(
                 "Expected `true` or `false`, but got `{}`",
-                other.escape_ascii()
+                other.escape_debug()
             )))
         }
     }
@@ -292,11 +300,8 @@ impl<'u, 'de> serde::Deserializer<'de> for &'u mut URLEncodedDeserializer<'de> {
             assert!(self.side == ParsingSide::Value);
         }
 
-        let section = self.next_section().unwrap();
-        let section = std::str::from_utf8(section)
-            .map_err(|_| serde::de::Error::custom(
-                format!("Expected a number, but got `{}`", section.escape_ascii())
-            ))?;
+        let section = self.next_decoded_section()?;
+        let section = &*section;
         visitor.visit_f32(
             section.parse().map_err(|_| serde::de::Error::custom(
                 format!("Expected a number, but got `{section}`")
@@ -309,11 +314,8 @@ impl<'u, 'de> serde::Deserializer<'de> for &'u mut URLEncodedDeserializer<'de> {
             assert!(self.side == ParsingSide::Value);
         }
 
-        let section = self.next_section().unwrap();
-        let section = std::str::from_utf8(section)
-            .map_err(|_| serde::de::Error::custom(
-                format!("Expected a number, but got `{}`", section.escape_ascii())
-            ))?;
+        let section = self.next_decoded_section()?;
+        let section = &*section;
         visitor.visit_f64(
             section.parse().map_err(|_| serde::de::Error::custom(
                 format!("Expected a number, but got `{section}`")
@@ -327,11 +329,8 @@ impl<'u, 'de> serde::Deserializer<'de> for &'u mut URLEncodedDeserializer<'de> {
             assert!(self.side == ParsingSide::Value);
         }
 
-        let section = self.next_section().unwrap();
-        let section = std::str::from_utf8(section)
-            .map_err(|_| serde::de::Error::custom(
-                format!("Expected an integer, but got `{}`", section.escape_ascii())
-            ))?;
+        let section = self.next_decoded_section()?;
+        let section = &*section;
         visitor.visit_i8(
             section.parse().map_err(|_| serde::de::Error::custom(
                 format!("Expected an integer, but got `{section}`")
@@ -344,11 +343,8 @@ impl<'u, 'de> serde::Deserializer<'de> for &'u mut URLEncodedDeserializer<'de> {
             assert!(self.side == ParsingSide::Value);
         }
 
-        let section = self.next_section().unwrap();
-        let section = std::str::from_utf8(section)
-            .map_err(|_| serde::de::Error::custom(
-                format!("Expected an integer, but got `{}`", section.escape_ascii())
-            ))?;
+        let section = self.next_decoded_section()?;
+        let section = &*section;
         visitor.visit_i16(
             section.parse().map_err(|_| serde::de::Error::custom(
                 format!("Expected an integer, but got `{section}`")
@@ -361,11 +357,8 @@ impl<'u, 'de> serde::Deserializer<'de> for &'u mut URLEncodedDeserializer<'de> {
             assert!(self.side == ParsingSide::Value);
         }
 
-        let section = self.next_section().unwrap();
-        let section = std::str::from_utf8(section)
-            .map_err(|_| serde::de::Error::custom(
-                format!("Expected an integer, but got `{}`", section.escape_ascii())
-            ))?;
+        let section = self.next_decoded_section()?;
+        let section = &*section;
         visitor.visit_i32(
             section.parse().map_err(|_| serde::de::Error::custom(
                 format!("Expected an integer, but got `{section}`")
@@ -378,11 +371,8 @@ impl<'u, 'de> serde::Deserializer<'de> for &'u mut URLEncodedDeserializer<'de> {
             assert!(self.side == ParsingSide::Value);
         }
 
-        let section = self.next_section().unwrap();
-        let section = std::str::from_utf8(section)
-            .map_err(|_| serde::de::Error::custom(
-                format!("Expected an integer, but got `{}`", section.escape_ascii())
-            ))?;
+        let section = self.next_decoded_section()?;
+        let section = &*section;
         visitor.visit_i64(
             section.parse().map_err(|_| serde::de::Error::custom(
                 format!("Expected an integer, but got `{section}`")
@@ -396,11 +386,8 @@ impl<'u, 'de> serde::Deserializer<'de> for &'u mut URLEncodedDeserializer<'de> {
             assert!(self.side == ParsingSide::Value);
         }
 
-        let section = self.next_section().unwrap();
-        let section = std::str::from_utf8(section)
-            .map_err(|_| serde::de::Error::custom(
-                format!("Expected an integer, but got `{}`", section.escape_ascii())
-            ))?;
+        let section = self.next_decoded_section()?;
+        let section = &*section;
         visitor.visit_u8(
             section.parse().map_err(|_| serde::de::Error::custom(
                 format!("Expected an integer, but got `{section}`")
@@ -413,11 +400,8 @@ impl<'u, 'de> serde::Deserializer<'de> for &'u mut URLEncodedDeserializer<'de> {
             assert!(self.side == ParsingSide::Value);
         }
 
-        let section = self.next_section().unwrap();
-        let section = std::str::from_utf8(section)
-            .map_err(|_| serde::de::Error::custom(
-                format!("Expected an integer, but got `{}`", section.escape_ascii())
-            ))?;
+        let section = self.next_decoded_section()?;
+        let section = &*section;
         visitor.visit_u16(
             section.parse().map_err(|_| serde::de::Error::custom(
                 format!("Expected an integer, but got `{section}`")
@@ -430,11 +414,8 @@ impl<'u, 'de> serde::Deserializer<'de> for &'u mut URLEncodedDeserializer<'de> {
             assert!(self.side == ParsingSide::Value);
         }
 
-        let section = self.next_section().unwrap();
-        let section = std::str::from_utf8(section)
-            .map_err(|_| serde::de::Error::custom(
-                format!("Expected an integer, but got `{}`", section.escape_ascii())
-            ))?;
+        let section = self.next_decoded_section()?;
+        let section = &*section;
         visitor.visit_u32(
             section.parse().map_err(|_| serde::de::Error::custom(
                 format!("Expected an integer, but got `{section}`")
@@ -447,11 +428,8 @@ impl<'u, 'de> serde::Deserializer<'de> for &'u mut URLEncodedDeserializer<'de> {
             assert!(self.side == ParsingSide::Value);
         }
 
-        let section = self.next_section().unwrap();
-        let section = std::str::from_utf8(section)
-            .map_err(|_| serde::de::Error::custom(
-                format!("Expected an integer, but got `{}`", section.escape_ascii())
-            ))?;
+        let section = self.next_decoded_section()?;
+        let section = &*section;
         visitor.visit_u64(
             section.parse().map_err(|_| serde::de::Error::custom(
                 format!("Expected an integer, but got `{section}`")
@@ -517,7 +495,7 @@ const _: () = {
         fn variant_seed<V>(self, seed: V) -> Result<(V::Value, Self::Variant), Self::Error>
         where V: serde::de::DeserializeSeed<'de> {
             Ok((
-                seed.deserialize(self.de.next_section().unwrap().into_deserializer())?,
+                seed.deserialize(self.de.next_decoded_section()?.into_deserializer())?,
                 self,
             ))
         }
@@ -558,11 +536,11 @@ struct CommaSeparated<'de> {
     first:   bool,
 }
 impl<'de> CommaSeparated<'de> {
-    fn new(de: &mut URLEncodedDeserializer<'de>) -> Self {
-        Self {
-            section: de.next_section().unwrap(),
+    fn new(de: &mut URLEncodedDeserializer<'de>) -> Result<Self, super::Error> {
+        Ok(Self {
+            section: de.next_section()?,
             first:   true,
-        }
+        })
     }
 }
 const _: () = {
@@ -574,8 +552,12 @@ const _: () = {
             if self.section.is_empty() {
                 return Ok(None)
             }
-            if !self.first && self.section.first() == Some(&b',') {
-                return Err(serde::de::Error::custom("missing ,"))
+            if !self.first {
+                /* skip the `,` that separates this element from the previous one */
+                if self.section.first() != Some(&b',') {
+                    return Err(serde::de::Error::custom("missing ,"))
+                }
+                self.section = &self.section[1..];
             }
             self.first = false;
 
@@ -583,7 +565,11 @@ const _: () = {
             let (element, remaining) = self.section.split_at(size);
             self.section = remaining;
 
-            seed.deserialize(element.into_deserializer()).map(Some)
+            /* an element is read just like a whole value: percent-decoded, numbers parsed */
+            seed.deserialize(&mut URLEncodedDeserializer {
+                input: element,
+                side:  ParsingSide::Value,
+            }).map(Some)
         }
     }
 };
